@@ -9,6 +9,7 @@ import (
 	"regexp"
 	"sort"
 	"sync"
+	"sync/atomic"
 	"testing/synctest"
 	"time"
 
@@ -16,6 +17,7 @@ import (
 	"github.com/google/certificate-transparency-go/scanner"
 
 	"verif/sim/kernel"
+	"verif/sim/lockrt"
 )
 
 // Edge and configuration map of C16 (statement clause -> what the code compares -> what is drawn).
@@ -56,6 +58,7 @@ import (
 // Mode selects which entry point of /repo/scanner the run drives.
 type Mode struct {
 	Scanner bool // false: Fetcher.Run with a batch callback; true: Scanner.ScanLog / Scan with certificate callbacks
+	Lock    bool // lockstep build (DESIGN §16): mutexes, go statements and statement boundaries of package scanner are seams
 }
 
 // matchSpec is a matcher handed to the Scanner together with the selection the
@@ -127,6 +130,8 @@ type World struct {
 
 	ctx     context.Context
 	cancel  context.CancelFunc
+	ls      *kernel.Lockstep // lockstep specs only
+	ended   atomic.Bool      // the caller's context was cancelled by the driver
 	fetcher *scanner.Fetcher
 	scan    *scanner.Scanner
 
@@ -194,6 +199,7 @@ func max64(a, b int64) int64 {
 // Init implements kernel.World.
 func (w *World) Init(s *kernel.Sim) {
 	w.s = s
+	w.lockInit()
 	t := s.T
 	p := &w.prof
 	p.Batch = t.Range(1, 16)
@@ -341,6 +347,17 @@ func (w *World) Init(s *kernel.Sim) {
 		w.ctx, w.cancel = context.WithTimeout(context.Background(), p.Deadline)
 	}
 
+	if w.mode.Lock {
+		// One worker per stage. Which of several workers blocked on one channel receives the next range / entry is
+		// the Go runtime's choice, invisible in the ordinary specs (their seams are keyed by the range or entry) but
+		// not here, where a worker's lineage name is part of every lock / yield key. The lockstep specs therefore
+		// interleave the *stages* (range generator, fetch worker + flatten, matcher, STH updates, Stop / cancel)
+		// statement by statement; several workers per stage stay with the ordinary and the race specs.
+		p.Par = 1
+		if w.mode.Scanner {
+			p.NumWorkers = 1
+		}
+	}
 	if s.Timed { // real parallelism is the point of timed mode
 		p.Par = max(p.Par, 2)
 		if w.mode.Scanner {
@@ -404,7 +421,13 @@ func (w *World) Init(s *kernel.Sim) {
 		}
 	}
 	if !s.Timed { // timed mode: TimedRun starts it once the seam decisions are in place
-		s.Go(w.run)
+		run := w.run
+		s.Go(func() {
+			if w.ls != nil {
+				w.ls.RT.SetName("run") // Fetcher.Run / ScanLog and every worker they spawn descend from it
+			}
+			run()
+		})
 	}
 }
 
@@ -687,6 +710,7 @@ func (w *World) doStop(why string) {
 
 func (w *World) doCancel(why string) {
 	w.cancelled = true
+	w.ended.Store(true)
 	w.logf("cancel context (%s)", why)
 	w.cancel()
 	if w.mode.Scanner {
@@ -735,6 +759,9 @@ func (w *World) drainAfterCancel() {
 func (w *World) Options(s *kernel.Sim) []kernel.Option {
 	if w.isDone() || w.drained {
 		return nil
+	}
+	if w.ls != nil && !s.FaultsOn() {
+		w.ls.Quiet() // settle phase: liveness is about the code under test, not about how often the driver stops it
 	}
 	parked := s.ParkedCalls()
 	cbParked := 0
@@ -805,11 +832,23 @@ func (w *World) Options(s *kernel.Sim) []kernel.Option {
 		return []kernel.Option{s.AdvanceOpt(15*time.Second, 1)}
 	}
 	opts := oks
+	// Lockstep specs: no Stop, cancel or clock advance while the driver holds a goroutine at a lock or a statement
+	// boundary. A goroutine held in front of a select that finds, on release, both its context done and a channel
+	// ready takes either branch (Go picks at random): the outcome would not be a function of the tape. Both outcomes
+	// stay reachable - with the event before the goroutine gets there, or after it has passed.
+	lockHeld := false
+	if w.ls != nil {
+		for _, p := range parked {
+			if kernel.IsLockSeam(p.Name) {
+				lockHeld = true
+			}
+		}
+	}
 	if len(parked) == 0 {
 		// 45 s is updateSTH's "quick" window, 30 s / 60 s the back-off ceiling without / with full jitter
 		opts = append(opts, s.AdvanceOpt(time.Second, 6), s.AdvanceOpt(10*time.Second, 4), s.AdvanceOpt(50*time.Millisecond, 1), s.AdvanceOpt(2*time.Minute, 2),
 			s.AdvanceOpt(45*time.Second, 1), s.AdvanceOpt(44*time.Second, 1), s.AdvanceOpt(30*time.Second, 1))
-	} else if w.prof.ClockNoise {
+	} else if w.prof.ClockNoise && !lockHeld {
 		opts = append(opts, s.AdvanceOpt(time.Second, 1), s.AdvanceOpt(10*time.Second, 1))
 	}
 	opts = append(opts, faults...)
@@ -828,7 +867,7 @@ func (w *World) Options(s *kernel.Sim) []kernel.Option {
 			w.logf("log publishes %d more entries: size %d", k, w.size)
 		}})
 	}
-	if w.prof.AllowStop && w.stopEvents < 2 { // a second Stop is legal and must change nothing
+	if w.prof.AllowStop && w.stopEvents < 2 && !lockHeld { // a second Stop is legal and must change nothing
 		opts = append(opts, kernel.Option{Key: "stop", Weight: 1, Apply: func() {
 			if w.stopEvents++; w.stopEvents == 2 {
 				s.Probe("stop.twice")
@@ -836,7 +875,7 @@ func (w *World) Options(s *kernel.Sim) []kernel.Option {
 			w.doStop("event")
 		}})
 	}
-	if w.prof.AllowCancel && !w.cancelled {
+	if w.prof.AllowCancel && !w.cancelled && !lockHeld {
 		// all matcher workers busy in callbacks: a fetch worker may be blocked inside flatten with the rest
 		// of its batch - the state in which a cancelled scan has to unwind both sides
 		busy := w.mode.Scanner && cbParked >= w.prof.NumWorkers
@@ -1199,6 +1238,9 @@ func (w *World) judgeDone() {
 
 // AfterStep implements kernel.World.
 func (w *World) AfterStep(s *kernel.Sim) {
+	if w.ls != nil && w.ls.Check() {
+		return
+	}
 	for _, p := range s.ParkedCalls() {
 		if w.seen[p.Key] {
 			continue
@@ -1301,4 +1343,30 @@ func (w *World) Shutdown(s *kernel.Sim) { w.cancel() }
 // StateKey implements kernel.World.
 func (w *World) StateKey() string {
 	return fmt.Sprintf("size=%d dl=%d parked=%d stop=%v cancel=%v done=%v", w.size, w.nDelivered, len(w.s.ParkedCalls()), w.stopIssued, w.cancelled, w.judged)
+}
+
+// lockInit installs the lockstep runtime for the run (lock specs), or none.
+func (w *World) lockInit() {
+	if !w.mode.Lock || w.s.Timed {
+		lockrt.Install(nil)
+		return
+	}
+	w.ls = kernel.NewLockstep(w.s, true)
+	// once the caller's context has ended (cancel, or its deadline by the fake clock) what the workers still do is a
+	// tie inside the code under test: they keep honouring the locks but are no longer scheduled by the driver
+	w.ls.Ended = func(string) bool {
+		return w.ended.Load() || (w.prof.Deadline > 0 && w.s.Now() >= w.prof.Deadline)
+	}
+	lockrt.Install(w.ls.RT)
+}
+
+// lockSpecs: the lockstep variants exist only in the binary built from the rewritten tree.
+func lockSpecs(specs []kernel.Spec, lim kernel.Limits) []kernel.Spec {
+	if !lockrt.Enabled {
+		return specs
+	}
+	lim.MaxSteps, lim.SettleSteps = 4*lim.MaxSteps, 3*lim.SettleSteps
+	return append(specs,
+		kernel.Spec{Prop: "C16lock", Mk: New(Mode{Lock: true}), Limits: lim},
+		kernel.Spec{Prop: "C16scannerlock", Mk: New(Mode{Scanner: true, Lock: true}), Limits: lim})
 }
